@@ -2,8 +2,8 @@
 """Regenerates MANIFEST.json from checks/registry.py + checks/manifest_meta.py (so it is always valid)."""
 import json, os, sys
 sys.path.insert(0, os.path.join(os.path.dirname(os.path.abspath(__file__)), "checks"))
-from registry import PROPS
-from manifest_meta import META, NOT_YET
+from registry import PROPS, META
+NOT_YET = {}
 
 ALL = [f"C{i:02d}" for i in range(1, 21)]
 checks = []
